@@ -405,6 +405,26 @@ Proof.
 Qed.
 Print Assumptions c13_cfi_seq_order_refuted.
 
+(* ---- round 5: MultiSymbolProvider::stats (`for p in providers { result.extend(p.stats()) }`, site class MapIntoMap): what a
+   lookup in the merged map returns is the entry of the LAST provider (Vec order) that has the key — whatever the iteration
+   order of each provider's own map *)
+Theorem c13_multi_provider_stats_order_independent :
+  forall (K V : Type) (keqb : K -> K -> bool), (forall a b, keqb a b = true <-> a = b) ->
+  forall (maps its1 its2 : list (list (K * V))) (k : K),
+  Forall (fun m => NoDup (map fst m)) maps ->
+  Forall2 (@Permutation _) its1 maps -> Forall2 (@Permutation _) its2 maps ->
+  lookup keqb k (merge_stats keqb its1) = lookup keqb k (merge_stats keqb its2) /\
+  lookup keqb k (merge_stats keqb its1) = merged_spec keqb maps k.
+Proof.
+  intros K V keqb Hk maps its1 its2 k HF P1 P2. split.
+  - exact (merge_stats_order_independent keqb Hk maps its1 its2 k HF P1 P2).
+  - assert (P0 : Forall2 (@Permutation _) maps maps).
+    { clear. induction maps; constructor; [apply Permutation_refl|assumption]. }
+    rewrite (merge_stats_order_independent keqb Hk maps its1 maps k HF P1 P0).
+    exact (merge_stats_spec keqb Hk maps k HF).
+Qed.
+Print Assumptions c13_multi_provider_stats_order_independent.
+
 (* ---- round 5: every cell writable through a shared reference, and everything the per-thread future shares with its
    siblings, is one of the enumerated, classified sites *)
 Theorem c13_interior_mutable_sites_modelled :
@@ -548,3 +568,11 @@ Example c13_nonvacuous_process :
   pthreads 2 (process budget_post c [] atasks 3%nat s1) = [Some [7; 7]; Some [8]]%nat /\
   pthreads 2 (process budget_post c [] atasks 3%nat s2) = [Some [7]; Some [8; 8]]%nat.
 Proof. cbv zeta. split; [exact counter_commutes|]. repeat split; vm_compute; reflexivity. Qed.
+
+(* two providers, the second one knows module 2 as well: its entry wins for 2, the first provider's for 1 *)
+Example c13_nonvacuous_merge :
+  let maps := [[(1, 10); (2, 20)]; [(2, 21); (3, 31)]]%nat in
+  lookup Nat.eqb 2%nat (merge_stats Nat.eqb maps) = Some 21%nat /\
+  lookup Nat.eqb 2%nat (merge_stats Nat.eqb [[(2, 20); (1, 10)]; [(3, 31); (2, 21)]]%nat) = Some 21%nat /\
+  lookup Nat.eqb 1%nat (merge_stats Nat.eqb maps) = Some 10%nat /\ lookup Nat.eqb 4%nat (merge_stats Nat.eqb maps) = None.
+Proof. cbv zeta. repeat split. Qed.
